@@ -512,8 +512,8 @@ pub fn run(report: &Report) {
     let empty: Vec<Vec<u128>> = vec![vec![]];
     explore::<U8U16>(report, &empty, &small_alphabet::<U8U16>(), if q { 6 } else { 7 }, "mixed-precision-14");
     explore::<U8U32>(report, &empty, &small_alphabet::<U8U32>(), if q { 6 } else { 7 }, "mixed-precision-14");
-    explore::<U8U16>(report, &import_inits::<U8U16>(), &small_alphabet::<U8U16>(), if q { 4 } else { 5 }, "mixed-precision-14");
-    explore::<U8U32>(report, &import_inits::<U8U32>(), &small_alphabet::<U8U32>(), if q { 4 } else { 5 }, "mixed-precision-14");
+    explore::<U8U16>(report, &import_inits::<U8U16>(), &small_alphabet::<U8U16>(), if q { 5 } else { 6 }, "mixed-precision-14");
+    explore::<U8U32>(report, &import_inits::<U8U32>(), &small_alphabet::<U8U32>(), if q { 5 } else { 6 }, "mixed-precision-14");
     explore::<U8U16>(report, &empty, &pairs_alphabet::<U8U16>(), if q { 3 } else { 4 }, "all-pairs P<=3 + extremes");
     explore::<U8U64>(report, &import_inits::<U8U64>(), &small_alphabet::<U8U64>(), if q { 3 } else { 5 }, "mixed-precision-14");
     explore::<U16U32>(report, &import_inits::<U16U32>(), &small_alphabet::<U16U32>(), if q { 3 } else { 5 }, "mixed-precision-14");
